@@ -13,7 +13,8 @@ _CFG = {}
 
 # allowed values per template parameter: points and intervals
 DOMS = {"rs": [0.0, [0.5, 1.0]], "r": [[-1.0, 1.0]], "bs": [0.25, 0.5, [1.0, 1.5]], "m": [0.0, 1.5]}
-INSIDE = {"rs": 0.75, "r": 0.5, "bs": 1.25, "m": 1.5}
+INSIDE = {"rs": [0.0, 1.0, 0.75], "r": [-1.0, 1.0, 0.5], "bs": [0.25, 1.5, 1.25], "m": [0.0, 1.5, 0.0]}   # valid values, cycled over the bins
+                                                                                                       # (smallest and largest first)
 VALS = {  # deviation -> value per parameter
     "below": {"rs": -0.25, "r": -1.5, "bs": 0.125, "m": -1.0},
     "above": {"rs": 1.25, "r": 1.5, "bs": 1.75, "m": 2.0},
@@ -65,7 +66,7 @@ def _run_one(it):
         if tmax < 1:
             return {"ok": True, "res": {"skipped": True}}
         dev = sf.Device(spec=device_spec(target, tmax))
-        arrays = {k: [INSIDE[k]] * T for k in PARS}
+        arrays = {k: [INSIDE[k][t % 3] for t in range(T)] for k in PARS}
         if it["val"] != "none":
             key = PARS[it["vpar"] - 1]
             v = VALS[it["val"]][key]
@@ -165,7 +166,7 @@ def tdm_devices(chk):
     tier = chk.tier
     chk.assumptions.append("single-loop time-domain devices: one generated template (Sgate / Rgate / BSgate / MeasureHomodyne on 2 concurrent modes) "
                            "with point-and-interval domains; compilers TDM and TD2; at most %d deviation(s) per program" % (1 if tier == "quick" else 2))
-    r = chk.tlc("MC_TDMDev", constants={"MaxT": 2 if tier == "quick" else 3, "Defects": 1 if tier == "quick" else 2, "EMIT": True},
+    r = chk.tlc("MC_TDMDev", constants={"MaxT": 3, "Defects": 1 if tier == "quick" else 2, "EMIT": True},
                 invariants=["EmitInv"], use_override=False)
     items = []
     for j in r.json:
